@@ -146,9 +146,12 @@ package pattern
 //@   trusted
 //@   ensures  result != nil
 //@ func (*Parser).array
-//@   trusted
+//@   requires p != nil
 //@   modifies Parser.cur, Parser.last, Parser.nextItem, Parser.bindings
+//@   ensures  [list] result1 == nil ==> istype(result0, List)
 //@   ensures  [mono] forall n string :: {n in p.bindings} (n in old(p.bindings)) ==> (n in p.bindings) && p.bindings[n] == old(p.bindings)[n]
+//@   loop 1   invariant [mono] forall n string :: {n in p.bindings} (n in loopentry(p.bindings)) ==> (n in p.bindings) && p.bindings[n] == loopentry(p.bindings)[n]
+//@   loop 2   invariant [bound] i < len(objs)
 // reflective constructor: exported fields are the arguments, unexported fields are zero
 //@ func (*Parser).populateNode
 //@   trusted
